@@ -132,26 +132,24 @@ Lemma rehook_all_slots : forall fs m fs', Forall (fun f => fkind f = KM) fs -> S
   SlotsOK (rehook_all fs m) fs'.
 Proof.
   induction fs as [|f t IH]; intros m fs' Hk H; cbn [rehook_all]; auto.
-  apply IH; [eapply Forall_inv_tail; eauto|].
-  apply Forall_inv in Hk. rewrite Hk. cbn [hk]. now apply SlotsOK_tramp.
+  pose proof (Forall_inv Hk) as Hf. rewrite Hf. cbn [hk]. apply SlotsOK_tramp.
+  apply IH; auto. eapply Forall_inv_tail; eauto.
 Qed.
 
 Lemma rehook_all_notin : forall fs m l, Forall (fun f => floc f <> l) fs -> rehook_all fs m l = m l.
 Proof.
   induction fs as [|f t IH]; intros m l H; cbn [rehook_all]; auto.
-  rewrite IH by (eapply Forall_inv_tail; eauto). apply Forall_inv in H. now rewrite upd_other by congruence.
+  pose proof (Forall_inv H) as Hf. rewrite upd_other by congruence. apply IH. eapply Forall_inv_tail; eauto.
 Qed.
 
 Lemma rehook_all_in : forall fs m l, Forall (fun f => fkind f = KM) fs -> In l (map floc fs) ->
   rehook_all fs m l = Tramp KM.
 Proof.
   induction fs as [|f t IH]; intros m l Hk Hin; [contradiction|].
-  cbn [rehook_all]. pose proof (Forall_inv Hk) as Hf. apply Forall_inv_tail in Hk.
-  destruct (in_dec Nat.eq_dec l (map floc t)) as [Ht|Hn].
-  - now apply IH.
-  - rewrite rehook_all_notin.
-    + cbn in Hin. destruct Hin as [<-|]; [|contradiction]. rewrite Hf. apply upd_same.
-    + apply Forall_forall. intros x Hx Heq. apply Hn. apply in_map_iff. eauto.
+  cbn [rehook_all]. pose proof (Forall_inv Hk) as Hf. apply Forall_inv_tail in Hk. rewrite Hf. cbn [hk].
+  destruct (Nat.eq_dec l (floc f)) as [->|Hne]; [apply upd_same|].
+  rewrite upd_other by exact Hne. apply IH; auto.
+  cbn in Hin. destruct Hin as [E|]; [congruence | assumption].
 Qed.
 
 Lemma walk_restore_wf2 : forall t g m, WF2 (g :: t) ->
@@ -511,4 +509,17 @@ Definition nv_recover_tree2 : call :=
 Example nv_recover_tree2_ok :
   only_pg nv_recover_tree2 = true /\ no_recover nv_recover_tree2 = false /\
   targets (snd (run_ops st0 (full 1 nv_recover_tree2))) = map Some (native nv_recover_tree2).
+Proof. vm_compute. repeat split; reflexivity. Qed.
+
+(* why mcount_rstack_rehook has to walk from the oldest entry to the newest: a PLT-called function that tail-called
+   a -pg function leaves the chain [pg frame (saved: plthook_return); PLT frame (saved: real)] on one slot.  Walking
+   newest-first (the code before fix C01-9) leaves plthook_return in the slot, and plthook_exit then meets the -pg frame
+   ("invalid dynsym idx", the traced program is killed); walking oldest-first leaves mcount_return. *)
+Example rehook_newest_first_refuted :
+  let fs := [mkF 1 (Tramp KP) KM false; mkF 1 (Real 100) KP false] in
+  let m := fun _ => Real 0 in
+  rehook_all_legacy fs m 1 = Tramp KP /\
+  ret_through 3 1 (mkSt (rehook_all_legacy fs m) fs) 0 = None /\
+  rehook_all fs m 1 = Tramp KM /\
+  ret_through 3 1 (mkSt (rehook_all fs m) fs) 0 = Some (mkSt (upd (upd (rehook_all fs m) 1 (Tramp KP)) 1 (Real 100)) [], 2, Real 100).
 Proof. vm_compute. repeat split; reflexivity. Qed.
